@@ -94,10 +94,14 @@ class BicepsSubscriptionAsync(ActionBasedSubscription):
         subscription_end.SubscriptionManager.ReferenceParameters = self.reference_parameters
         subscription_end.Status = code
         subscription_end.add_reason(reason, 'en-US')
+        if self.end_to_address is not None:
+            addr_to, reference_parameters = self.end_to_address, self.end_to_ref_params
+        else:
+            addr_to, reference_parameters = self.notify_to_address, self.notify_ref_params
         inf = HeaderInformationBlock(
             action=subscription_end.action,
-            addr_to=self.end_to_address or self.notify_to_address,
-            reference_parameters=self.end_to_ref_params or self.notify_ref_params,
+            addr_to=addr_to,
+            reference_parameters=reference_parameters,
         )
         message = self._msg_factory.mk_soap_message(inf, payload=subscription_end)
         url = self._end_to_url or self.notify_to_url
